@@ -401,7 +401,57 @@ func boundedLen(fn *ssa.Function, ms *ssa.MakeSlice) (bool, string) {
 	if ok, _ := mustPass(fn, ms, g); ok {
 		return true, "dominated by a comparison with a constant upper bound"
 	}
+	// a helper that allocates what it is told to: bounded at every static call site
+	if p, isParam := stripConv(l).(*ssa.Parameter); isParam && theCtx != nil {
+		if sites, ok := theCtx.staticCallers(fn); ok && len(sites) > 0 {
+			idx := -1
+			for i, q := range fn.Params {
+				if q == p {
+					idx = i
+				}
+			}
+			all := idx >= 0
+			for _, cs := range sites {
+				if !all || idx >= len(cs.Common().Args) || !upperBoundedAt(cs.Parent(), cs.(ssa.Instruction), cs.Common().Args[idx]) {
+					all = false
+				}
+			}
+			if all {
+				return true, "length parameter, dominated by a comparison with a constant upper bound at every call site"
+			}
+		}
+	}
 	return false, "length " + describeLen(l) + " has no 16-bit type and no dominating constant upper bound"
+}
+
+func stripConv(v ssa.Value) ssa.Value {
+	for {
+		switch x := v.(type) {
+		case *ssa.Convert:
+			v = x.X
+		case *ssa.ChangeType:
+			v = x.X
+		default:
+			return v
+		}
+	}
+}
+
+// upperBoundedAt: on every path to `at`, v (modulo integer conversions) was compared below a constant <= 2^24.
+func upperBoundedAt(fn *ssa.Function, at ssa.Instruction, v ssa.Value) bool {
+	g := GCmp(func(x ssa.Value, op token.Token, y ssa.Value) bool {
+		if sameValueModConv(x, v) {
+			k, ok := constInt(y)
+			return ok && (op == token.LEQ || op == token.LSS) && k <= 1<<24
+		}
+		if sameValueModConv(y, v) {
+			k, ok := constInt(x)
+			return ok && (op == token.GEQ || op == token.GTR) && k <= 1<<24
+		}
+		return false
+	})
+	ok, _ := mustPass(fn, at, g)
+	return ok
 }
 
 func sameValueModConv(a, b ssa.Value) bool {
